@@ -11,7 +11,29 @@ from ..util import call
 from ..report import short
 
 glom = env.bind()
-from glom import T, Path, PathAccessError, GlomError, glom as G  # noqa: E402
+from glom import T, Path, PathAccessError, GlomError, Glommer, glom as G  # noqa: E402
+
+# "with the access registered for each intermediate value's type": a private Glommer whose `get` handlers for dict,
+# OrderedDict, list, tuple and object are logging wrappers of the default accesses.  Every plain segment must go
+# through the handler registered for the value's type (also for plain dicts and lists, which cannot log by themselves).
+HLOG = []
+
+
+def _logged(kind, fn):
+    def handler(t, k):
+        HLOG.append((id(t), k))
+        return fn(t, k)
+    handler.__name__ = 'logged_get_' + kind
+    return handler
+
+
+GL = Glommer()
+from glom.core import TargetRegistry as _TR  # noqa: E402
+for _tp, _fn in list(GL.scope[_TR]._op_type_map['get'].items()):
+    # every type the default registry knows for `get` (dict, list, tuple, OrderedDict, object and the two duck types),
+    # re-registered with a logging wrapper of its own default access
+    if _fn:
+        GL.register(_tp, get=_logged(_tp.__name__, _fn))
 
 META = {
     'level': 'exploration',
@@ -46,10 +68,12 @@ def ref_step(cur, style, arg):
 WRAPPED = {'P': (Exception,), '.': (AttributeError,), '[': (KeyError, IndexError, TypeError)}
 
 
-def ref_walk(target, steps):
+def ref_walk(target, steps, hlog=None):
     """('ok', obj) | ('pae', k, exc) | ('raw', k, exc)"""
     cur = target
     for k, (style, arg) in enumerate(steps):
+        if style == 'P' and hlog is not None:
+            hlog.append((id(cur), arg))
         try:
             cur = ref_step(cur, style, arg)
         except Exception as e:
@@ -128,10 +152,10 @@ def make_spec(rng, steps, spelling):
 def bad_segments(node):
     """[(fault kind, raw segment)] that cannot be accessed on node"""
     if isinstance(node, dict):
-        return [('missing-key', BAD), ('missing-key-int', 99)]
+        return [('missing-key', BAD), ('missing-key-int', 99), ('unhashable-key', [BAD])]
     if isinstance(node, (list, tuple)):
         n = len(node)
-        return [('index-out-of-range', 99), ('index-out-of-range-neg', -99), ('non-integer-index', 'x9'),
+        return [('index-out-of-range', 99), ('unhashable-index', [0]), ('index-out-of-range-neg', -99), ('non-integer-index', 'x9'),
                 ('index-just-past-end', n), ('index-just-before-start', -n - 1), ('index-minus-2len', -2 * n if n else -1)]
     if isinstance(node, (gen.PlainObj, gen.LogObj, gen.SlotObj)):
         return [('missing-attribute', BAD)]
@@ -206,6 +230,28 @@ def run_case(col, target, log, steps, spelling, rng, fault, k_planted, types):
         _, k, e = want
         if got.ok or not isinstance(got.exc, type(e)):
             col.violation('C01/non-lookup-error-class-lost', '%s: step %d raises %r, glom gave %r' % (short(spec), k, e, got), wit)
+    if rng.random() < 0.5:
+        # the same evaluation through the private Glommer: same outcome, and every plain segment went through the
+        # handler registered for the type of the value it was applied to
+        want_h = []
+        ref_walk(target, steps, want_h)
+        del log[:]
+        del HLOG[:]
+        got2 = call(GL.glom, target, spec)
+        got_h = list(HLOG)
+        del log[:]
+        col.count('glommer_runs_with_logging_handlers')
+        col.count('handler_invocations_logged', len(got_h))
+        same = (got2.ok and got.ok and got2.value is got.value) or \
+               (not got2.ok and not got.ok and type(got2.exc) is type(got.exc) and str(got2.exc) == str(got.exc))
+        if not same:
+            col.violation('C01/glommer-with-equivalent-handlers-differs:' + sp,
+                          '%s on %s: glom() gives %r, a Glommer whose get handlers wrap the default accesses gives %r'
+                          % (short(spec), short(target), got, got2), wit)
+        if got_h != want_h:
+            col.violation('C01/registered-get-handler-not-used:' + sp,
+                          '%s on %s: plain segments applied to (type, segment) %s, registered handlers saw %s'
+                          % (short(spec), short(target), [k for _, k in want_h], [k for _, k in got_h]), wit)
     if got_log != ref_log:
         extra = 'touched-after-failure' if want[0] != 'ok' and len(got_log) > len(ref_log) else 'access-log-differs'
         col.violation('C01/' + extra + ':' + sp,
@@ -313,6 +359,7 @@ def run(ctx):
     col.require('valid_paths', 200)
     col.require('failing_paths', 200)
     col.require('accesses_logged', 100)
+    col.require('handler_invocations_logged', 200)
     if ctx.shard == 0:
         systematic(col, rng)
     for i in range(ctx.n(500, 4000)):
